@@ -207,8 +207,13 @@ func buildConfig(c CaseCfg, cfgRec *Recorder) *eval.Config {
 			cc.VariableKeyMap[k] = v
 		}
 	} else if !c.Undefined || c.RegisterAlways {
+		// consecutive keys; a third of the configurations start at key 0 (a legal key: the first value of an iota block)
+		base := 1
+		if (hashStr(strings.Join(c.VarNames, ","))+uint64(c.Opts))%3 == 0 {
+			base = 0
+		}
 		for i, n := range c.VarNames {
-			cc.VariableKeyMap[n] = eval.VariableKey(i + 1)
+			cc.VariableKeyMap[n] = eval.VariableKey(i + base)
 		}
 	}
 	names := make([]string, 0, len(c.Custom))
